@@ -18,7 +18,7 @@ EXPLANATION = (
     "libPutHeader and then fileCloseOut(lib->name, lib->file) on every path and never a raw fclose. O3: the checked close "
     "itself (evaluated as straight-line code for the two outcomes 'error indicator set, everything else succeeds' and 'only fclose "
     "fails': both must reach the handler call) tests ferror(file) and the result of fclose(file) and calls (*fileError) on failure; compFileError, the "
-    "installed handler, ends in comsgFatal. Scope: the outputs named by the property (-Fai -Fap -Fasy -Fao -Ffm -Flsp -Fc "
+    "installed handler, ends in comsgFatal and no CFG path through it reaches its exit without that call. Scope: the outputs named by the property (-Fai -Fap -Fasy -Fao -Ffm -Flsp -Fc "
     "-Fjava -Fmain). O4: O3 relies on the stream's sticky error indicator surviving until the close, so every call of "
     "rewind/clearerr/freopen in the compiler must take a stream all of whose values in that function are read-mode opens (or a "
     "parameter frozen with its reason); gencpp.c (C++ stubs, raw fopen) is outside that list and reported as a note only.")
@@ -147,6 +147,16 @@ def check_close_helper(rep, f_file, f_axlcomp):
                       "failure (ferror=%s fclose=%s tested=%s handler=%s)" % (has_ferror, has_fclose, fclose_tested, bool(indirect)))
     h = f_axlcomp.func("compFileError")
     hc = [c.get("callee") for c in calls(h["body"])]
+    # the handler never returns: on the CFG there is no path from entry to exit that avoids comsgFatal
+    fc = common.extract("axlcomp.c", cfg=["compFileError"])
+    hcfg = CFG(fc.func("compFileError"))
+    escape = hcfg.path_avoiding(hcfg.entry, None, lambda n: n["k"] == "CallExpr" and n.get("callee") == "comsgFatal", src_idx=-1)
+    if escape is not None:
+        rep.violation("O3", "compFileError:never-returns", "axlcomp.c:%d (compFileError)" % h["l"],
+                      "the installed file error handler can return to its caller without raising the fatal error: fileCloseOut discards the "
+                      "handler's result, so a failed write is followed by a normal exit with status 0", detail={"cfg_path": escape[:10]})
+    else:
+        rep.ok("O3", "compFileError:never-returns")
     if "comsgFatal" in hc:
         rep.ok("O3", "compFileError")
     else:
